@@ -119,6 +119,10 @@ def check_property(prop, tier, seed, jobs, verbose):
     canary_ok = canary_ok and s2.check() == z3.sat
     if not canary_ok:
         checker_errors.append("solver canary failed")
+    from pyvc import tables
+    tcases, tfail = tables.validate_native(seed)
+    if tfail:
+        checker_errors.append(f"T-occ2 fact refuted natively: {tfail[:2]}")
     from pyvc import streams
     dl = streams.prove_digit_lemmas()
     if any(r != "unsat" for _, r in dl):
@@ -305,6 +309,7 @@ def check_property(prop, tier, seed, jobs, verbose):
         "encoding of Python: int = mathematical integers; // and % by a proved-positive divisor = SMT div/mod; "
         "x & (2**n-1) = x mod 2**n; x >> n = x div 2**n; 1 << n = 2**n; ~x = -x-1 (exact CPython semantics)",
         f"8-bit lemmas for | & ~ popcount: validated exhaustively by CPython on every run ({cases} cases this run)",
+        f"T-occ2 table-count axioms and update facts: validated on random tables by CPython on every run ({tcases} cases)",
         "encapsulation: objects are mutated only through the operations under contract",
         "the engine pyvc itself (VC generator written for this task; guarded by canary, cover checks, mutation self-test)",
     ]
